@@ -49,8 +49,9 @@ def analyse(recs, nprod, nev):
 
 
 def one(job):
-    flavour, seed, nprod, nev, yld, engine = job
-    r = thr.run(flavour, 'producers', CHART, timeout=180, producers=nprod, events=nev, seed=seed, **{'yield': yld, 'engine': engine})
+    flavour, seed, nprod, nev, yld, engine = job[:6]
+    early = job[6] if len(job) > 6 else 0
+    r = thr.run(flavour, 'producers', CHART, timeout=180, producers=nprod, events=nev, seed=seed, early=early, **{'yield': yld, 'engine': engine})
     rec = {'job': job, 'bad': [], 'processed': 0, 'sigs': set(), 'tsan': {}, 'tsan_other': {}}
     if r['timeout']:
         rec['bad'].append(('hang', {'stderr': r['err'][-1500:]})); return rec
@@ -82,7 +83,7 @@ def main(tier, replay):
     jobs = []
     for i in range(runs):
         nprod = rng.choice([2, 4, 8]); nev = rng.choice([100, 300, 600]) if nprod < 8 else rng.choice([50, 150])
-        jobs.append(('tsan' if i % 4 else 'asan', chk.seed * 10000 + i, nprod, nev, rng.choice([0, 50, 200, 500]), 'large' if i % 3 else 'fast'))
+        jobs.append(('tsan' if i % 4 else 'asan', chk.seed * 10000 + i, nprod, nev, rng.choice([0, 50, 200, 500]), 'large' if i % 3 else 'fast', 1 if i % 5 == 2 else 0))
     sigs = set(); processed = 0; other = collections.Counter()
     for rec in common.pmap(one, jobs, workers=min(8, common.NPROC)):
         chk.count(); processed += rec['processed']; sigs |= rec['sigs']
@@ -95,7 +96,7 @@ def main(tier, replay):
     chk.add('external_events_processed', processed); chk.add('distinct_interleaving_signatures', len(sigs)); chk.add('tsan_reports_outside_anchored_files', dict(other))
     need = 20 if tier == 'quick' else 500
     if len(sigs) < need: chk.inconc('only %d distinct interleaving signatures observed (< %d)' % (len(sigs), need))
-    chk.rule = ('each run = N in {2,4,8} producer threads x M uniquely named events against one stepping thread mixing step(0)/step(1)/step(5), seeded yields/sleeps at the USCXML_VERIF schedule points; '
+    chk.rule = ('each run = N in {2,4,8} producer threads x M uniquely named events against one stepping thread mixing step(0)/step(1)/step(5) (in 1 of 5 runs the producers start before the first step()), seeded yields/sleeps at the USCXML_VERIF schedule points; '
                 'TSan build (3 of 4 runs) and ASan build; offline checker: every sent event processed exactly once, per-producer order, and per external event the exact internal sequence (micro step, eventless micro step, i.a, i.b, i.c, one stable notice). '
                 'distinct_nontrivial = runs without violation; interleaving signature = hash of the (thread role, site) sequence of the 6 schedule-point hits following a receive()')
     chk.assumptions = ['interleavings are sampled, not enumerated', 'TSan reports are attributed only when a frame lies in the anchored files; others are listed, not judged']
